@@ -183,6 +183,13 @@ func checkPack(h *hz.H, md protoreflect.MessageDescriptor, d protoreflect.Messag
 	}
 }
 
+func clipB(b []byte) []byte {
+	if len(b) > 24 {
+		return b[:24]
+	}
+	return b
+}
+
 func isDynMsg(m proto.Message) bool { _, ok := m.(*dynamicpb.Message); return ok }
 
 func clipS(s string) string {
@@ -220,6 +227,63 @@ func runC16(h *hz.H) {
 		names = append(names, fmt.Sprintf("%s: %d values", md.FullName(), n))
 	}
 	h.Rep.Bounds["types"] = names
+	// (1b) packed values stay what they were: histories of packs of growing and shrinking sizes (each size record of a
+	// string field: 40, 600, 5000, 70000 bytes, a small value after each), every earlier Any re-checked after every pack
+	{
+		type kept struct {
+			a    *anypb.Any
+			ref  []byte
+			url  string
+			what string
+		}
+		var keptAll []kept
+		recheck := func(after string) {
+			for _, k := range keptAll {
+				if k.a.TypeUrl != k.url || !bytes.Equal(k.a.Value, k.ref) {
+					h.Violate("C16/pack/earlier-any-changed-by-a-later-pack", fmt.Sprintf("the Any packed from %s (%d bytes) changed after the later pack of %s: TypeUrl %q (was %q), Value now %x... (was %x...)", k.what, len(k.ref), after, k.a.TypeUrl, k.url, clipB(k.a.Value), clipB(k.ref)), c16case{Kind: "pack-history", Type: k.what})
+					return
+				}
+			}
+		}
+		n := 0
+		for _, md := range types {
+			var sfd protoreflect.FieldDescriptor
+			for i := 0; i < md.Fields().Len(); i++ {
+				if f := md.Fields().Get(i); (f.Kind() == protoreflect.StringKind || f.Kind() == protoreflect.BytesKind) && !f.IsList() && !f.IsMap() && f.ContainingOneof() == nil {
+					sfd = f
+					break
+				}
+			}
+			if sfd == nil || n >= 4 {
+				continue
+			}
+			n++
+			for _, size := range []int{40, 600, 5000, 70000, 30} {
+				d := enum.NewDyn(md)
+				if sfd.Kind() == protoreflect.StringKind {
+					d.Set(sfd, protoreflect.ValueOfString(strings.Repeat(string(rune('a'+size%7)), size)))
+				} else {
+					d.Set(sfd, protoreflect.ValueOfBytes(bytes.Repeat([]byte{byte(size)}, size)))
+				}
+				for _, src := range []proto.Message{enum.BuildGo(d), d.Interface()} {
+					what := fmt.Sprintf("%s{%s=%d bytes}", md.FullName(), sfd.Name(), size)
+					a, err := anyutil.New(src)
+					h.Eval(true, hz.Hash("C16hist", what, fmt.Sprintf("%T", src)))
+					if err != nil {
+						h.Violate("C16/pack/failed/history", fmt.Sprintf("anyutil.New(%s) failed: %v", what, err), c16case{Kind: "pack-history", Type: what})
+						continue
+					}
+					recheck(what)
+					chk := enum.NewDyn(md)
+					if e := proto.Unmarshal(a.Value, chk); e != nil || enum.Canon(chk, false) != enum.Canon(d, false) {
+						h.Violate("C16/pack/value/history", fmt.Sprintf("anyutil.New(%s): Value is not an encoding of the message (err %v)", what, e), c16case{Kind: "pack-history", Type: what})
+						continue
+					}
+					keptAll = append(keptAll, kept{a, append([]byte(nil), a.Value...), a.TypeUrl, what})
+				}
+			}
+		}
+	}
 	// (2) every Any x resolver combination returns a message or an error, never panics
 	valid, _ := proto.Marshal(&anypb.Any{TypeUrl: "/x", Value: []byte{1}})
 	bEnc := []byte{0x0a, 0x01, 0x78} // testpb.B{x:"x"} and many others: field 1 bytes "x"
